@@ -473,6 +473,36 @@ type YieldPlan struct {
 	Hits  map[string]int
 	Parks map[string][]time.Duration // per point: park duration for the n-th hit (0 = none)
 	Fn    func(point string, n int)
+	// ParkIf, if set, restricts Parks to the calls for which it returns true
+	// (only those calls consume park slots).
+	ParkIf   func(point string) bool
+	parkHits map[string]int
+}
+
+// callerHas reports whether the calling goroutine's stack contains a function
+// whose name contains one of the given substrings.
+func callerHas(subs ...string) bool {
+	var pcs [40]uintptr
+	fr := runtime.CallersFrames(pcs[:runtime.Callers(2, pcs[:])])
+	for {
+		f, more := fr.Next()
+		for _, s := range subs {
+			if strings.Contains(f.Function, s) {
+				return true
+			}
+		}
+		if !more {
+			return false
+		}
+	}
+}
+
+// clientSideCaller: the calling goroutine is inside the tunnel client (channel
+// or client stream). A client-side carrier send holds at most the stream
+// creation lock or the stream's own write lock, which only the application's
+// own goroutines take.
+func clientSideCaller(string) bool {
+	return callerHas("grpctunnel.(*tunnelChannel)", "grpctunnel.(*tunnelClientStream)")
 }
 
 // EnableJitter makes every yield point of the scenario hand the processor to
@@ -499,12 +529,20 @@ func (w *World) installYield(p *YieldPlan) {
 				runtime.Gosched()
 			}
 		}
+		eligible := p.ParkIf == nil || len(p.Parks[point]) == 0 || p.ParkIf(point)
 		p.mu.Lock()
 		n := p.Hits[point]
 		p.Hits[point] = n + 1
 		var d time.Duration
-		if ds := p.Parks[point]; n < len(ds) {
-			d = ds[n]
+		if eligible {
+			if p.parkHits == nil {
+				p.parkHits = map[string]int{}
+			}
+			k := p.parkHits[point]
+			p.parkHits[point] = k + 1
+			if ds := p.Parks[point]; k < len(ds) {
+				d = ds[k]
+			}
 		}
 		fn := p.Fn
 		p.mu.Unlock()
